@@ -6,6 +6,7 @@ toolchain go1.23.5
 
 require (
 	github.com/cockroachdb/pebble v0.0.0-20221207173255-0f086d933dac
+	github.com/hashicorp/memberlist v0.5.1
 	github.com/jamf/regatta v0.0.0
 	github.com/klauspost/compress v1.17.8
 	github.com/lni/dragonboat/v4 v4.0.0-20231222133740-1d6e2d76cd57
@@ -39,7 +40,6 @@ require (
 	github.com/hashicorp/go-multierror v1.1.1 // indirect
 	github.com/hashicorp/go-sockaddr v1.0.5 // indirect
 	github.com/hashicorp/golang-lru v1.0.2 // indirect
-	github.com/hashicorp/memberlist v0.5.1 // indirect
 	github.com/kr/pretty v0.3.1 // indirect
 	github.com/kr/text v0.2.0 // indirect
 	github.com/lni/goutils v1.4.0 // indirect
